@@ -1,0 +1,12 @@
+//go:build !verif
+
+// Package verifhook provides instrumentation points for the out-of-tree
+// deterministic simulation harness. Without the "verif" build tag every
+// function here is an empty, inlinable no-op.
+package verifhook
+
+// FS is called immediately before a file-system mutation.
+func FS(op, path, path2 string) {}
+
+// Yield is called at named scheduling points.
+func Yield(site string) {}
